@@ -486,3 +486,9 @@ ADDENDA_R11 = {
     "C19": ("R19.c", "no stream error state is cleared and no stream buffer is inserted wholesale", "lint with a built-in positive example"),
     "C20": ("R20.14", "a module's range length is taken before its first index is moved", "reachability from the overwriting assignment"),
 }
+
+
+# Triage after round 11 (DESIGN.md section 9).
+ADDENDA_R11T = {
+    "C15": ("R15.34", "a namespace definition never reopens a scope the parser is inside of (found F-C15ae: `namespace A { namespace A { int q; } }`, valid C++, never stopped writing)", "structural rule over the grammar action: walker start, step, comparison, drop, loop exits; gate on _alias_of in CPPNamespace::output"),
+}
